@@ -106,6 +106,23 @@ impl<'a, T> VxIter<'a, T> {
     { vx_any(self.0.as_slice(), f) }
 }
 
+/// the same for a slice receiver
+pub struct VxIterS<'a, T>(pub &'a [T]);
+impl<'a, T> VxIterS<'a, T> {
+    pub fn all<F: Fn(&T) -> bool>(self, f: F) -> (r: bool)
+        requires forall|i: int| 0 <= i < self.0@.len() ==> call_requires(f, (&self.0@[i],)),
+        ensures
+            r ==> forall|i: int| #![trigger self.0@[i]] 0 <= i < self.0@.len() ==> call_ensures(f, (&self.0@[i],), true),
+            !r ==> exists|i: int| #![trigger self.0@[i]] 0 <= i < self.0@.len() && call_ensures(f, (&self.0@[i],), false),
+    { vx_all(self.0, f) }
+    pub fn any<F: Fn(&T) -> bool>(self, f: F) -> (r: bool)
+        requires forall|i: int| 0 <= i < self.0@.len() ==> call_requires(f, (&self.0@[i],)),
+        ensures
+            r ==> exists|i: int| #![trigger self.0@[i]] 0 <= i < self.0@.len() && call_ensures(f, (&self.0@[i],), true),
+            !r ==> forall|i: int| #![trigger self.0@[i]] 0 <= i < self.0@.len() ==> call_ensures(f, (&self.0@[i],), false),
+    { vx_any(self.0, f) }
+}
+
 /// R12: `m.iter().filter(p).map(|(k, v)| (*k, *v)).collect()` — the sub-map of the entries satisfying p (assumed
 /// std iterator semantics; the predicate closure stays verbatim at the call site and is verified there)
 #[verifier::external_body]
